@@ -183,6 +183,11 @@ def run_job(job, res, prefixes, budget, deadline):
             case = c01.make_case(I, m, tpl, toks)
             case['outcomes'] = {p: k for p, (k, v) in I.path_state.get('facts', {}).items()}
             case['template'] = job['tpl']
+            try:
+                r1_ = runs[1][0]
+                case['result_kinds'] = ['Ok' if x.variant == 'Ok' else qrun.err_kind(x) for x in r1_.results]
+                case['lookups_found'] = [t[0] for t in runs[1][1] if t[1] == 'found']
+            except Exception: pass
             res['candidates'].append({'role': role, 'case': case, 'detail': detail})
         res['obligations'] += 1
         if kind == 'panic': cand('panic', str(runs)); return
@@ -313,7 +318,19 @@ def confirm(c, outs):
         import re
         phrases = [p.strip() for p in re.split(r'[-+*/()]|round|\d+(?:\.\d+)?', text) if p.strip()]
         got = [d['query'] for d in y.get('descriptions', [])]
-        if any('err' in r for r in (y.get('ok') or [])): continue
+        if any('err' in r for r in (y.get('ok') or [])):
+            # a failing expression: the facts looked up before the failure are still to be described.  Judged only where the
+            # native run provably takes the model's course: single-word phrases that all exist, the same Ok / divide-by-zero
+            # pattern of results; then the described phrases must be the model's lookups (made by the same code), in order
+            kinds = case.get('result_kinds'); toks = case.get('tokens') or []
+            if not kinds or 'lookups_found' not in case: continue
+            if any(a[0] == 'raw' and b[0] == 'raw' for a, b in zip(toks, toks[1:])): continue
+            if any(v not in (2, 3) for v in (case.get('outcomes') or {}).values()): continue
+            nat = ['Ok' if 'ok' in r else ('DivideByZero' if 'divide by zero' in str(r.get('err')) else 'other') for r in y['ok']]
+            if nat != kinds or 'other' in nat: continue
+            want = [REAL.get(p_, p_) for p_ in case['lookups_found']]
+            if got != want: return True, f'{prof}: {text!r} (a result fails with divide by zero): described {got}, looked up before the failure {want}'
+            continue
         if sorted(got) != sorted(phrases): return True, f'{prof}: {text!r}: described {got}, phrases used {phrases}'
     return False, 'real build agrees'
 
